@@ -7,6 +7,7 @@ ASSUMPTIONS = [
     "the IAVL root hash is a deterministic function of the sequence of Set/Remove/SaveVersion calls (not modelled); equal tree-call logs give equal hashes",
     "the class of every map-range site and the allow-list of clock/uuid/env/goroutine sites in props/C01.v were assigned by reading the code (audited, trusted); the hash of the loop text pins what was read",
     "Go scheduler effects inside Tendermint (asynchronous tx indexing) and cross-architecture floating point are outside the model",
+    "whether a delivered transaction was executed before is asked of the node's Tendermint transaction index: replicas are run with the kv indexer fed at every commit (as a caught-up node), one replica with the null indexer; the divergence of the latter on re-included bytes is the known finding C01.replay_record_is_node_local",
     "node identity varied by the twin runs: validator key, node key, validator/non-validator role, chain-state rotation setting; witness role and job-store content are covered by C15's transition model",
 ]
 
@@ -19,6 +20,27 @@ def fixed_replays():
             if os.path.exists(p):
                 out.append((f, json.load(open(p))))
     return out
+
+
+def trigger_of(c, sig):
+    """The replica with Tendermint's null indexer diverges exactly where a block re-includes bytes of an earlier block."""
+    d = c.get("divergence") or {}
+    if c.get("variant") != "tx-index-off" or not (c.get("hname") or "").endswith("+reincluded"):
+        return None
+    descr = c.get("descr") or []
+    b, t = d.get("block", 0) - 1, d.get("tx", -1)
+    if not (0 <= b < len(descr)):
+        return None
+    if d.get("what") == "txresult":
+        # the first difference is the answer to a re-included transaction itself
+        if 0 <= t < len(descr[b]) and descr[b][t] == "included again":
+            return "C01.replay_record_is_node_local"
+        return None
+    # same answers, other state (the re-included transaction is answered alike but executed on one node only):
+    # the first divergent block must be one that re-includes bytes
+    if "included again" in descr[b]:
+        return "C01.replay_record_is_node_local"
+    return None
 
 
 def run(ctx):
@@ -54,7 +76,7 @@ def run(ctx):
                             "transaction result compared; non-trivial = history with transactions")
     ctx.coverage["explanation"] = ("theorems of props/C01.v (loop idioms independent of the map-iteration permutation; block transcript a function of block + durable state) "
                                    "+ Facts_Nondet obligations (every map-range / clock / uuid / goroutine site of the consensus packages classified; regenerated) + replica twin runs")
-    twinlib.judge(ctx, rep)
+    twinlib.judge(ctx, rep, trigger_of)
     if broken is not None and ctx.violations == 0:
         raise broken
 
